@@ -429,6 +429,18 @@ func (r *sessRun) sendReply(c string, kind string) {
 		// body that cannot be decoded, codec id 0
 		m.SetBodyCodec(0)
 		m.SetBody([]byte("\x01garbage"))
+		if r.sc.Mode == "free" {
+			// free-running replays vary the hostile answer (the strict ones follow the model's reader steps, which
+			// are those of the undecodable codec-0 body): a well-formed frame of an unsupported type in place of
+			// the reply, or a reply whose JSON body does not parse
+			switch (int(seq) + len(r.sc.ID) + len(r.sentq)) % 3 {
+			case 1:
+				m.SetMtype(9)
+			case 2:
+				m.SetBodyCodec('j')
+				m.SetBody([]byte("{{{ not json"))
+			}
+		}
 	}
 	err := r.rawWrite(m)
 	if err == nil {
